@@ -18,7 +18,8 @@ hx = lambda b: b.hex() if b else "-"
 
 
 def model_exec(path, alpha):
-    L = ["reset", "new 1 -"]
+    how = "ALTR--"[len(path) % 6]           # the String on its own, or living inside a container (element of an Array / List, value of a Table / Tree)
+    L = ["reset", "new 1 -" if how == "-" else "newin 1 %s -" % how]
     tr = lambda t: hx(bytes(alpha[x] for x in t))
     for a in path:
         op = a["op"]
@@ -37,7 +38,7 @@ def model_exec(path, alpha):
 def random_exec(rng, nops, maxlen, alphabet):
     def rs(n):
         return bytes(rng.choice(alphabet) for _ in range(rng.randint(0, n)))
-    L = ["reset", "new 1 %s" % hx(rs(6))]
+    L = ["reset", ("new 1 %s" if rng.random() < 0.6 else "newin 1 " + rng.choice("ALTR") + " %s") % hx(rs(6))]
     cur = {1: b""}                       # contents tracked only to pick interesting operands (substrings, prefixes)
     import re
     for _ in range(nops):
@@ -101,7 +102,7 @@ def length_sweep(rng, quick):
         lens = list(range(0, 600)) + [1023, 1024, 1025, 2047, 2048, 2049, 4095, 4096, 4097, 8191, 8192, 8193]
     out = []
     for chunk in range(0, len(lens), 25):
-        L = ["reset", "new 1 %s" % hx(b"seed")]
+        L = ["reset", ("new 1 %s" if chunk % 50 == 0 else "newin 1 " + rng.choice("ALTR") + " %s") % hx(b"seed")]
         for n in lens[chunk:chunk + 25]:
             t = bytes(rng.choice(b"abcdefghijklmnopqrstuvwxyz") for _ in range(n))
             L.append("printat 1 0 %s" % hx(t))
